@@ -3,7 +3,7 @@
     Admissible: module and function names non-empty without ':' and '#' (dotted identifiers);
     cluster any string without '#'; version ANY string (':' , '#', '::' included). *)
 From Coq Require Import List NArith Bool String.
-From Memento Require Import Codec.Json Codec.ArgHash Codec.QName Codec.QNameProofs Gen.SourceFacts Gen.FactsOK.
+From Memento Require Import Codec.Json Codec.ArgHash Codec.QName Codec.QNameProofs Gen.SourceFacts Gen.FactsC12.
 Import ListNotations.
 Open Scope N_scope.
 
